@@ -270,7 +270,7 @@ pub fn gen_bigstream(rng: &mut Rng, n: usize, thorough: bool) -> Vec<Case> {
         .into_iter()
         .map(|(req, ann)| {
             let t: Vec<&str> = req.split(' ').collect();
-            (format!("stream any - T,S0,S1,P0 {}", t[3]), ann)
+            (format!("stream any - T,S0,S1,P0,N{} {}", hex(b".shstrtab"), t[3]), ann)
         })
         .collect()
 }
